@@ -89,6 +89,36 @@ let handle (f : string array) : string =
   | "P" ->
     let pub = (z_of_str f.(2), z_of_str f.(3)) in
     b2s (publicKey_Verify pub (bytes_of_hex f.(4)) (bytes_of_hex f.(5)))
+  | "Y" ->
+    (* histories on reused buffers: the model is stateless, every step is computed from the bytes of that step alone *)
+    let ds = [| z_of_str f.(3); z_of_str f.(4) |] in
+    let steps = String.split_on_char ',' f.(5) in
+    let sigs = ref [] in   (* reversed list of (r,s) option *)
+    let outs = List.map (fun st ->
+      match String.split_on_char '.' st with
+      | [kind; k; uid; msg; extra] ->
+        let pr = key_of ds.(int_of_string k) in
+        let uid = bytes_of_hex uid and msg = bytes_of_hex msg in
+        let (o, sg) =
+          (match kind with
+           | "s" ->
+             let rho = bytes_of_hex extra in
+             (match sm2Sign (fuel_for rho) pr msg uid rho with
+              | Ok ((r, s), _) -> (str_of_z r ^ "." ^ str_of_z s, Some (r, s))
+              | _ -> ("err", None))
+           | "v" ->
+             let j = int_of_string extra in
+             let l = List.rev !sigs in
+             (match (if j >= 0 && j < List.length l then List.nth l j else None) with
+              | Some (r, s) -> ((if sm2Verify pr.pub msg uid r s then "1" else "0"), None)
+              | None -> ("0", None))
+           | _ ->
+             (match sm3Digest pr.pub msg uid with
+              | Ok d -> (hex_of_bytes d, None)
+              | _ -> ("err", None))) in
+        sigs := sg :: !sigs; o
+      | _ -> "BADSTEP") steps in
+    "ok " ^ String.concat "," outs
   | "W" ->
     (* consumer leg of C01: gmtls verifyHandshakeSignature (kinds s, e) and x509 CheckSignature (kind x) *)
     let pub = (z_of_str f.(3), z_of_str f.(4)) in
